@@ -160,7 +160,7 @@ def _guarded(d, call):
         box["r"] = _contained_call(d, call) if getattr(d, "contain", False) else d.call(call)
     th = threading.Thread(target=run, daemon=True)
     th.start()
-    th.join(20)
+    th.join(60)
     if th.is_alive():
         d.dead = True
         return {"cls": "blocked", "cid": "-", "data": "-", "truth": True}
